@@ -2,21 +2,26 @@
 C15 — all return and file modes deliver the same model: executable model of the on-disk state
 machine behind `to_onnx(..., return_mode="file")` (core Lean only).
 
-`user_interface.to_onnx._save_model_proto` (the code as it is NOW):
+`user_interface.to_onnx._save_model_proto` (the code as it is NOW, after fix f6799b2):
 
     data_location = basename(dest) + ".data"
     web:       onnx.save_model(proto, dest, save_as_external_data=False)
                remove the sidecar if it exists
-    standard:  onnx.save_model(proto, dest, save_as_external_data=True, all_tensors_to_one_file=True,
+    standard:  REMOVE the sidecar if it exists (a sidecar left by an earlier export is stale)
+               onnx.save_model(proto, dest, save_as_external_data=True, all_tensors_to_one_file=True,
                                location=data_location, size_threshold=1_048_576)
                  · raises FileExistsError when a file called `data_location` exists in the CURRENT
                    WORKING DIRECTORY (onnx checks `os.path.exists(location)` relative to the cwd) —
-                   before anything is written
+                   after the removal above, this can only be a FOREIGN file: the cwd is not the
+                   destination directory (`Op.clash`). Nothing is written then, but the destination's
+                   sidecar is already gone.
                  · every initializer with `raw_data` and sys.getsizeof(raw_data) >= threshold
-                   (= len + 33 >= 1 MiB) is written to the sidecar: the file is opened (created if
-                   absent), the data APPENDED at its end, offset/length recorded in the tensor
+                   (= len + 33 >= 1 MiB) is written to the (fresh) sidecar, offset/length recorded
                  · the main file is (re)written
-               if no initializer went external: remove the sidecar if it exists and is EMPTY
+               (the empty-sidecar cleanup that follows can no longer find anything to do)
+
+Before the fix the sidecar was kept and APPENDED to (`exportStdOld`, kept for the regression
+examples in Props/C15.lean), and a re-export to a path in the cwd was refused.
 
 `onnx.load(dest)` reads the main file and, for every external tensor, `length` bytes at `offset`
 of the sidecar.
@@ -88,7 +93,17 @@ def place (spills : Tensor → Bool) : List Tensor → Bytes → List Entry × B
 
 def inlineAll (ts : List Tensor) : List Entry := ts.map fun t => ⟨t.name, t.raw, .inline t.data⟩
 
-def exportStd (spills : Tensor → Bool) (m : Model) (d : Disk) : Disk :=
+/-- standard export as it is now: the old sidecar is removed first, the new one starts empty -/
+def exportStd (spills : Tensor → Bool) (m : Model) (_d : Disk) : Disk :=
+  if m.tensors.any spills then
+    let r := place spills m.tensors []
+    ⟨some ⟨m.graph, r.1⟩, some r.2⟩
+  else
+    ⟨some ⟨m.graph, inlineAll m.tensors⟩, none⟩
+
+/-- standard export BEFORE fix f6799b2 (regression examples only): the sidecar is kept and
+    appended to; an empty one is removed when nothing spills -/
+def exportStdOld (spills : Tensor → Bool) (m : Model) (d : Disk) : Disk :=
   if m.tensors.any spills then
     let r := place spills m.tensors (d.side.getD [])
     ⟨some ⟨m.graph, r.1⟩, some r.2⟩
@@ -97,9 +112,8 @@ def exportStd (spills : Tensor → Bool) (m : Model) (d : Disk) : Disk :=
 
 def exportWeb (m : Model) (_d : Disk) : Disk := ⟨some ⟨m.graph, inlineAll m.tensors⟩, none⟩
 
-/-- one export request to the path; `clash` = a file with the sidecar's name exists in the
-    current working directory (true in particular when the path itself is in the cwd and a
-    sidecar is there from an earlier export) -/
+/-- one export request to the path; `clash` = a FOREIGN file with the sidecar's name exists in
+    the current working directory (the cwd is not the destination directory) -/
 structure Op where
   mode : Mode
   model : Model
@@ -110,7 +124,7 @@ structure Op where
 def step (spills : Tensor → Bool) (d : Disk) (op : Op) : Disk × Bool :=
   match op.mode with
   | .web => (exportWeb op.model d, true)
-  | .standard => if op.clash then (d, false) else (exportStd spills op.model d, true)
+  | .standard => if op.clash then (⟨d.main, none⟩, false) else (exportStd spills op.model d, true)
 
 def run (spills : Tensor → Bool) : Disk → List Op → Disk
   | d, [] => d
@@ -167,11 +181,11 @@ def stepL (d : DiskL) (mode : Mode) (q : Req) (clash : Bool) : DiskL × Bool :=
   match mode with
   | .web => (⟨some (inlineAllL q), none⟩, true)
   | .standard =>
-    if clash then (d, false)
+    if clash then (⟨d.main, none⟩, false)
     else if q.any (fun (_, raw, len) => spillsSize raw len) then
-      let r := placeL q (d.side.getD 0)
+      let r := placeL q 0
       (⟨some r.1, some r.2⟩, true)
-    else (⟨some (inlineAllL q), if d.side = some 0 then none else d.side⟩, true)
+    else (⟨some (inlineAllL q), none⟩, true)
 
 def Stored.toL : Stored → StoredL
   | .inline b => .inline b.length
